@@ -1,4 +1,5 @@
 CONSTANTS
+  Secs <- SecsUniform
   NChrom = 3
   NSec = 2
   Window = 2
